@@ -105,6 +105,9 @@ var prologueSpecs = []prologueSpec{
 	{"pkg/controller/services", "svcAcmeClient", "Remove", "acme.remove", `simAcmeNote("remove", item)`},
 	// which queue item (full or partial) a reconciliation was asked with
 	{"pkg/controller/reconciler", "IngressReconciler", "Reconcile", "reconcile.param", `simReconcileNote(req.fullsync)`},
+	// what the watchers hold when a batch is taken (the hand-off to the services is observed at the call, below)
+	{"pkg/controller/reconciler", "watchers", "getChangedObjects", "batch.taken", `simBatchTaken(w)`},
+	{"pkg/controller/services", "Services", "ReconcileIngress", "batch.delivered", `simBatchDelivered(changed)`},
 	// the ACME protocol client (network) is replaced by the one the harness provides
 	{"pkg/acme", "signer", "AcmeAccount", "acme.client", `if SimClientFactory != nil {
 		s.client = nil
